@@ -33,6 +33,11 @@ type C18Case struct {
 	OddPath bool `json:",omitempty"`
 	// ViaLink: the directory is named through a symbolic link to it, written with a trailing separator ("current/")
 	ViaLink bool `json:",omitempty"`
+	// Hollow: (diff) one of the two directories exists but holds nothing the reader can use - 1 = empty, 2 = a README
+	// only, 3 = one unreadable YAML file only; HollowFirst: it is dir1 (else dir2). The library analyses it as an empty
+	// configuration (every connection of the other side is added / removed); the command must do the same.
+	Hollow      int  `json:",omitempty"`
+	HollowFirst bool `json:",omitempty"`
 }
 
 func genC18(t *rapid.T) *C18Case {
@@ -78,6 +83,9 @@ func genC18(t *rapid.T) *C18Case {
 		}
 		if rapid.IntRange(0, 4).Draw(t, "selfdiff") == 0 {
 			c.SelfDiff = rapid.IntRange(1, 3).Draw(t, "selfdiffkind")
+		} else if rapid.IntRange(0, 4).Draw(t, "hollow") == 0 {
+			c.Hollow = rapid.IntRange(1, 3).Draw(t, "hollowkind")
+			c.HollowFirst = rapid.Bool().Draw(t, "hollowfirst")
 		}
 	}
 	c.OddPath = rapid.IntRange(0, 2).Draw(t, "oddpath") == 0
@@ -180,6 +188,22 @@ func checkC18(c *C18Case, st *VStats) *VFailure {
 		}
 		if c.SelfDiff != 0 {
 			st.Class("diff of a directory with itself")
+		}
+		if c.Hollow != 0 {
+			hollow := mkScratch()
+			defer os.RemoveAll(hollow)
+			switch c.Hollow {
+			case 2:
+				writeFile(filepath.Join(hollow, "README.md"), []byte("# nothing deployed yet\n"))
+			case 3:
+				writeFile(filepath.Join(hollow, "draft.yaml"), []byte("replicaCount: 2\nimage:\n  tag: v1\n"))
+			}
+			if c.HollowFirst {
+				dir1, dirB = hollow, dir
+			} else {
+				dirB = hollow
+			}
+			st.Class("diff against a directory that holds no resource")
 		}
 		d := RunDiff(dir1, dirB, DiffOpts{Format: c.Format, StopOnError: c.Fail, WantOutput: true})
 		if d.Panic != nil {
